@@ -52,6 +52,11 @@ CONFIGS = [
     ("positional-cmd", ["F 0", A("s0", "-", "vm=cmd"), A("i0", "i")]),
     ("presized", ["F 0", "I vb0 " + hx("1"), "I vb1 " + hx("2\x1f1"), "I db0 " + hx("1"), "I db1 " + hx("3\x1f0"), A("vb0", "a,one"), A("vb1", "b,two", "unset"),
                   A("db0", "c,dynone"), A("db1", "d,dynthree", "unset"), A("bs0", "e,bits", "unset"), A("ca0", "f,arr", "unique", "sort"), A("tu0", "t,tuple")]),
+    # the same destinations with a format set: the library has a separate assignment path (own range checks) for that case
+    ("formatted", ["F 0", "I vb0 " + hx("2\x1f1"), "I db0 " + hx("3\x1f0"), A("bs0", "b,bits", "fmt=upper"), A("vb0", "vbool", "fmt=lower"), A("db0", "dynbits", "fmt=upper"),
+                   A("ca0", "a,arr", "fmt=upper", "fmtpos=2:lower"), A("ar0", "r,array", "fmtpos=0:upper", "fmtpos=2:lower"), A("tu0", "t,tuple", "fmtpos=1:upper"),
+                   A("vs0", "w,words", "fmt=lower", "fmtpos=1:upper", "fmtpos=30:upper"), A("mp0", "m,map", "fmtkey=upper", "pairfmt=" + hx("={}")),
+                   A("um0", "u,umap", "fmtval=lower", "fmtkey=upper"), A("s0", "s,str", "fmt=anycase:" + hx("Ullll"))]),
     ("group", ["GF %d" % H["usageCont"], "G %s %d" % (hx("first"), H["helpShort"] | H["helpLong"]), A("i0", "i,int"), A("vi0", "v,vec", "multi"),
                "G %s 0" % hx("second"), A("s0", "s,str"), A("b0", "f"), "C all_of %s" % hx("s;f")]),
 ]
@@ -72,6 +77,9 @@ VALID = {
     "positional-cmd": [["-i", "1", "rest", "of", "the", "line"], ["word"]],
     "presized": [["-a", "0", "-b", "1", "-c", "0", "-d", "2"], ["-a", "1"], ["-a", "2"], ["-b", "2"], ["-b", "3"], ["-c", "1"], ["-c", "2"], ["-d", "3"], ["-d", "4,5"],
                  ["-e", "15", "-f", "1,2,3,4", "-t", "1,x,2.5"], ["-e", "16"], ["-f", "1,1,2,2,3,3"], ["-a", "1,2,3"], ["-a", "14", "-a", "15", "-a", "22"]],
+    "formatted": [["-b", "1,15", "--vbool", "0,1,9", "--dynbits", "2,3,70"], ["-b", "16"], ["-a", "1,2,3,4", "-r", "7,8,9"], ["-a", "1,2,3,4,5"], ["-r", "1,2", "-r", "3,4"],
+                  ["-t", "1,two,3.5"], ["-w", "a,B,c", "-w", "dd"], ["-m", "{a=1};{b=2}", "-u", "k,V;q,W"], ["-m", "{a=1"], ["-s", "heLLo world"], ["-s", ""], ["-s", "x"],
+                  ["--vbool", "2"], ["--vbool", "3"], ["--dynbits", "3"], ["--dynbits", "4"]],
     "group": [["-i", "1", "-s", "x", "-f"], ["-v", "1", "2", "3", "-f", "-s", "q"], ["-h"]],
 }
 
